@@ -176,34 +176,44 @@ func runC03(c *Check) {
 					if !ok || builtinCall(call, "append") == nil || !derivesFromValue(isNewSlice, call) {
 						continue
 					}
-					// appended element
-					var elems []ssa.Value
-					for _, x := range rootsAll(call.Call.Args[1]) {
-						if cst, isC := x.(*ssa.Const); isC {
-							if _, isB := isConstBool(cst); isB {
-								elems = append(elems, cst)
-							}
-						}
+					// appended element: a bool constant, possibly chosen on different paths (phi of constants)
+					var srcs []constAt
+					all := true
+					vals := appendedValues(call)
+					if len(vals) != 1 {
+						all = false
 					}
-					if len(elems) != 1 {
+					for _, ev := range vals {
+						ss, ok := constSources(call, ev, 0)
+						if !ok {
+							all = false
+						}
+						srcs = append(srcs, ss...)
+					}
+					if !all || len(srcs) == 0 {
 						c.Undecided("R3", "spynode.(*Node).ProcessBlock#isNew-append-shape", call.Pos(), "appended value is not a bool constant")
 						continue
 					}
-					v, _ := isConstBool(elems[0])
-					if v {
-						nT++
-						key := "spynode.(*Node).ProcessBlock#classified-new"
-						ok, w := mustPass(call, boolEdge(inUnconf, false))
-						c.Decide(ok, "R3", key+"#not-in-unconfirmed", call.Pos(), "edge-cutset", w, "new only if not in the unconfirmed snapshot", "a tx already delivered (in the unconfirmed snapshot) can be classified new and delivered again")
-						ok, w = mustPass(call, boolEdge(inMemPool, false))
-						c.Decide(ok, "R3", key+"#not-in-mempool", call.Pos(), "edge-cutset", w, "new only if its body was not seen in the mempool", "a tx whose body was already seen (and judged) can be classified new")
-						ok, w = mustPass(call, callEdge(true, -1, nil, "(*spynode.Node).IsRelevant"))
-						c.Decide(ok, "R3", key+"#relevant", call.Pos(), "edge-cutset", w, "new only if IsRelevant()==true", "a non-matching block tx can be delivered")
-					} else {
-						nF++
-						ok, w := mustPass(call, boolEdge(inUnconf, true))
-						c.Decide(ok, "R3", "spynode.(*Node).ProcessBlock#classified-known#in-unconfirmed", call.Pos(), "edge-cutset", w,
-							"known only if it was in the unconfirmed snapshot", "a tx is treated as already delivered without having been in the unconfirmed snapshot: its confirmation would fetch a state that does not exist")
+					for _, src := range srcs {
+						v, isB := isConstBool(src.Val)
+						if !isB {
+							continue
+						}
+						if v {
+							nT++
+							key := "spynode.(*Node).ProcessBlock#classified-new"
+							ok, w := mustPassAt(src, boolEdge(inUnconf, false))
+							c.Decide(ok, "R3", key+"#not-in-unconfirmed", call.Pos(), "edge-cutset", w, "new only if not in the unconfirmed snapshot", "a tx already delivered (in the unconfirmed snapshot) can be classified new and delivered again")
+							ok, w = mustPassAt(src, boolEdge(inMemPool, false))
+							c.Decide(ok, "R3", key+"#not-in-mempool", call.Pos(), "edge-cutset", w, "new only if its body was not seen in the mempool", "a tx whose body was already seen (and judged) can be classified new")
+							ok, w = mustPassAt(src, callEdge(true, -1, nil, "(*spynode.Node).IsRelevant"))
+							c.Decide(ok, "R3", key+"#relevant", call.Pos(), "edge-cutset", w, "new only if IsRelevant()==true", "a non-matching block tx can be delivered")
+						} else {
+							nF++
+							ok, w := mustPassAt(src, boolEdge(inUnconf, true))
+							c.Decide(ok, "R3", "spynode.(*Node).ProcessBlock#classified-known#in-unconfirmed", call.Pos(), "edge-cutset", w,
+								"known only if it was in the unconfirmed snapshot", "a tx is treated as already delivered without having been in the unconfirmed snapshot: its confirmation would fetch a state that does not exist")
+						}
 					}
 				}
 			}
